@@ -58,6 +58,8 @@ type Exec struct {
 	nquant, nsort int
 	lastPerm   string
 	pureFuns   map[string]*pureFun
+	rets       []retState
+	inTwin     bool
 }
 
 func NewExec(P *Program, cfg *Config) *Exec {
@@ -151,6 +153,20 @@ func blockPos(b *ssa.BasicBlock) token.Pos {
 // VerifyFunction explores fn under its contract and collects obligations.
 func (x *Exec) VerifyFunction(fn *ssa.Function, c *Contract) {
 	x.Top, x.TopC, x.TopName = fn, c, CanonName(fn)
+	if x.relationalWanted() && !x.inTwin {
+		x.inTwin = true
+		x.VerifyFunction(fn, c)
+		run1 := x.rets
+		x.rets = nil
+		first := len(x.Obls)
+		x.VerifyFunction(fn, c)
+		run2 := x.rets
+		// the second run re-emits the unary obligations: keep one copy
+		x.Obls = x.Obls[:first]
+		x.inTwin = false
+		x.emitRelational(fn, run1, run2)
+		return
+	}
 	if c != nil {
 		if v, ok := c.Flags["max_paths"]; ok {
 			cfg := *x.Cfg
@@ -1116,6 +1132,9 @@ func (x *Exec) doPanic(st *State, fr *Frame, in ssa.Instruction, why string) {
 // doReturn pops the frame; for the top frame it checks the postconditions. Returns false when the path ends.
 func (x *Exec) doReturn(st *State, fr *Frame, res []Val) bool {
 	if len(st.frames) == 1 {
+		if x.inTwin {
+			x.recordReturn(st, fr, res)
+		}
 		x.checkPost(st, fr, res)
 		st.dead = true
 		return false
